@@ -95,10 +95,13 @@ def harnesses(tier, seed):
         h("c12_fixed_accept_iff_checksum", "accepted iff trailer == CRC-32(body); view shows the LE fields", "all 12-byte frames", covers=2),
         h("c12_fixed_roundtrip", "to_view_bytes -> using -> ==/deserialize_view is the identity; trailer is CRC-32", "all Fixed values"),
         h("c12_fixed_bitflip_refused", "every single-bit corruption of a valid frame is refused", "all Fixed values x 96 bit positions", covers=2),
+        h("c12_small_types_roundtrip", "3-byte, 6-byte and bare-enum messages arrive unchanged; frame = archive + 4 bytes", "all values", covers=1),
         h("c12_status_roundtrip_len4", "a handler error reaches the client with the same code and message", "5 codes x all 4-char printable messages"),
     ]
     if tier == "thorough":
         hs += [
+            h("c12_large_frame_tail_protected", "5016-byte body: a frame and its single-bit corruption in the last 20 bytes are never both accepted (receiver side)",
+              "5000 concrete zero bytes + symbolic 16-byte fixed part + symbolic trailer x 160 bit positions", t=3000, mem=24, covers=2),
             h("c12_short_withbytes_len_16_19", "short frames for a variable-size message type", "all byte strings of length 16, 19", t=2400, mem=24, covers=2),
             h("c12_short_status_len_4_11", "short frames for Status", "all byte strings of length 4, 11", t=2400, mem=24, covers=2),
             h("c12_fixed_truncation_refused", "every truncation of a valid fixed frame is refused", "all Fixed values x 6 cut points", t=2400, mem=24),
